@@ -589,6 +589,75 @@ def exec_wire(ops, seed):
                 impl = "wire"
                 q = {"svcs": svcs, "qs": list(msgs[0].questions), "known": list(msgs[0].answers()) if not msgs[0].is_probe() else [], "pkts": pkts,
                      "ettl": const._DNS_OTHER_TTL, "in_scope": all(x.class_ == 1 for x in msgs[0].questions)}
+            elif k == "QC":
+                def grab(start, mark):
+                    pkts = []
+                    for j, (t, src, dst, port, data) in enumerate(sim.net.log[start:]):
+                        inc = DNSIncoming(data)
+                        if inc.is_query():
+                            continue
+                        recs = inc.answers()
+                        na = inc.num_answers
+                        pkts.append({"t": t, "dst": dst, "answers": recs[:na], "adds": recs[na + inc.num_authorities:], "after": start + j >= mark})
+                    return pkts
+
+                start = len(sim.net.log)
+                svcs_before = [fields(i) for i in book.values()]
+                qsteps = []
+                for qop, gap in ([(op["pre"], op.get("pre_gap", 300))] if op.get("pre") else []) + [(op["query"], op["delay"])]:
+                    msgs, packets = build_msgs(qop, want_packets=True)
+                    qsteps.append({"op": qop, "line": msg_line(msgs), "impl": "wire", "msgs": msgs})
+                    host.inject(packets[0], "10.9.9.9", 5353)
+                    await sim.sleep_ms(gap)
+                mark = len(sim.net.log)
+                # ---- the change block: no await between the attribute writes and the registry call
+                futs, csteps, changed, kinds = [], [], {}, []
+                for c in op["change"]:
+                    ck = c["op"]
+                    if ck == "M":
+                        info = objs.get(c["obj"])
+                        if info is not None and book.get(info.key) is info:
+                            changed.setdefault(info.key, fields(info))
+                            apply_mut(info, c["mut"])
+                        continue
+                    if ck in ("U", "Unew"):
+                        info = objs.get(c["obj"]) if ck == "U" else make_info(c["svc"])
+                        if info is None:
+                            continue
+                        if ck == "Unew":
+                            objs[c["obj"]] = info
+                        if info.key in book:
+                            changed.setdefault(info.key, fields(book[info.key]))
+                        cline = "U " + svc_line(fields(info))
+                        futs.append(await zc.async_update_service(info))
+                        book[info.key] = info
+                        kinds.append("update")
+                    elif ck == "X":
+                        infos = [objs[i] for i in c["objs"] if i in objs]
+                        if not infos:
+                            continue
+                        cline = "X %d %s" % (len(infos), " ".join(C.hs(i.key) for i in infos))
+                        for i in infos:
+                            if i.key in book:
+                                changed.setdefault(i.key, fields(book[i.key]))
+                            futs.append(await zc.async_unregister_service(i))
+                            book.pop(i.key, None)
+                        kinds.append("unregister")
+                    else:
+                        continue
+                    csteps.append({"op": c, "line": cline, "impl": "ok", "q": None})
+                await sim.sleep_ms(2600)
+                for f in futs:
+                    await f
+                pkts = grab(start, mark)
+                for n, qs_ in enumerate(qsteps):
+                    m0 = qs_.pop("msgs")[0]
+                    qs_["q"] = {"split": True, "svcs": svcs_before, "svcs_after": [fields(i) for i in book.values()], "changed": changed, "kinds": kinds,
+                                "qs": list(m0.questions), "known": [], "pkts": pkts if n == len(qsteps) - 1 else [], "delay": op["delay"],
+                                "ettl": const._DNS_OTHER_TTL, "in_scope": True}
+                steps.extend(qsteps)
+                steps.extend(csteps)
+                continue
             else:
                 continue
             steps.append({"op": op, "line": line, "impl": impl, "q": q})
@@ -658,6 +727,97 @@ def wire_oracle(q):
     return bad
 
 
+def all_own(svcs, ettl):
+    out = set()
+    for f in svcs:
+        ptr, srv, txt, addrs, nsec, missing, enum = own_records(f, ettl)
+        out |= set([ptr, srv, txt, enum] + addrs + nsec)
+    return out
+
+
+SIG_D20 = "C03:queued-answer-superseded-by-update"
+
+
+def change_oracle(q):
+    """`after a service is updated or unregistered replies reflect only the new state`, on the wire: every record of a response
+    datagram transmitted after the update/unregister block (TTL-0 goodbyes aside) is a record of a service registered *then*;
+    datagrams transmitted before it are judged against the state before."""
+    bad = []
+    before, after = all_own(q["svcs"], q["ettl"]), all_own(q["svcs_after"], q["ettl"])
+    old = all_own(list(q["changed"].values()), q["ettl"])
+    for p in q["pkts"]:
+        for r in list(p["answers"]) + list(p["adds"]):
+            t = fixu(rtuple(r))
+            if not p["after"]:
+                if t not in before:
+                    bad.append(("C03:unsound-answer:%s" % t[0], "a datagram sent before the change carries a record that is not a record of a registered service", t))
+                continue
+            if t in after or (t[5] == 0 and "unregister" in q["kinds"]):
+                continue
+            if t in old and "update" in q["kinds"]:
+                bad.append((SIG_D20, "a reply computed before async_update_service and still queued was multicast after the update with the "
+                            "service's superseded record (D20)", t))
+            elif t in old:
+                bad.append(("C03:queued-answer-after-unregister:%s" % t[0], "a reply queued before async_unregister_service went out afterwards with a record of the withdrawn service", t))
+            else:
+                bad.append(("C03:unsound-answer:after-change:%s" % t[0], "a datagram sent after the change carries a record of no registered service", t))
+    return bad
+
+
+def gen_change_history(rng):
+    """register 1-3 services, then rounds of: (optional earlier query <1 s before, so that the reply is flood-delayed by 1 s) query,
+    0-1100 ms, update (in place or with a new object) or unregister while the reply may still be queued"""
+    ops, live, nid = [], {}, 0
+    while len(live) < rng.choice([1, 1, 2, 3]):
+        spec = gen_svc(rng)
+        spec["httl"] = rng.choice([120, 10, 121, 4500])
+        spec["ottl"] = rng.choice([4500, 60, 61])
+        if any(x["name"].lower() == spec["name"].lower() for x in live.values()):
+            continue
+        if live and rng.random() < 0.4:
+            o = rng.choice(list(live.values()))
+            spec["server"] = o["server"] if o["server"] else o["name"]
+        ops.append({"op": "R", "svc": spec, "obj": nid})
+        live[nid] = spec
+        nid += 1
+    for _ in range(rng.choice([1, 2, 3])):
+        if not live:
+            break
+        i = rng.choice(list(live))
+        f = spec_fields(live[i])
+        qu = 0x8000 if rng.random() < 0.15 else 0
+        shape = rng.choice(["srv+txt", "ptr", "txt", "any", "ptr+a", "a+aaaa", "enum", "srv"])
+        qs = {"srv+txt": [[f["name"], T_TXT, 1], [f["name"], T_SRV, 1]], "ptr": [[f["type"], T_PTR, 1]], "txt": [[f["name"], T_TXT, 1]],
+              "any": [[f["name"], T_ANY, 1]], "ptr+a": [[f["type"], T_PTR, 1], [f["server"], T_A, 1]],
+              "a+aaaa": [[f["server"], T_A, 1], [f["server"], T_AAAA, 1]], "enum": [[ENUM, T_PTR, 1], [f["type"], T_PTR, 1]], "srv": [[f["name"], T_SRV, 1]]}[shape]
+        qs = [[n, t, c | qu] for n, t, c in qs]
+        query = {"op": "Q", "ucast": False, "msgs": [{"probe": False, "qs": qs, "answers": []}]}
+        op = {"op": "QC", "query": query, "delay": rng.choice([0, 1, 5, 15, 30, 60, 100, 119, 121, 200, 400, 600, 1100])}
+        if rng.random() < 0.3:
+            op["pre"] = {"op": "Q", "ucast": False, "msgs": [{"probe": False, "qs": list(reversed(qs)) + [["nosuch.local.", T_A, 1]], "answers": []}]}
+            op["pre_gap"] = rng.choice([150, 300, 600, 900])
+            op["delay"] = rng.choice([0, 30, 200, 600, 900, 1050, 1100])
+        r = rng.random()
+        if r < 0.45:
+            kind = rng.choice(["port", "text", "httl", "ottl", "addrs", "port"])
+            val = {"port": rng.choice([81, 8080]), "text": rng.choice(TEXTS[1:]).hex(), "httl": rng.choice([120, 10, 121]), "ottl": rng.choice([4500, 60, 61]),
+                   "addrs": gen_svc(rng)["addrs"]}[kind]
+            live[i]["addrs" if kind == "addrs" else kind] = val
+            op["change"] = [{"op": "M", "obj": i, "mut": [kind, val]}, {"op": "U", "obj": i}]
+        elif r < 0.75:
+            spec = gen_svc(rng, name=live[i]["name"], type_=live[i]["type"])
+            spec["server"] = live[i]["server"]
+            op["change"] = [{"op": "Unew", "svc": spec, "obj": nid}]
+            del live[i]
+            live[nid] = spec
+            nid += 1
+        else:
+            op["change"] = [{"op": "X", "objs": [i]}]
+            del live[i]
+        ops.append(op)
+    return ops
+
+
 def gen_wire_history(rng):
     """short histories with unique names (the public API probes for conflicts), writes always followed by update"""
     ops = []
@@ -719,6 +879,24 @@ def assess_wire(res, ops, steps, errors, model_line, seed):
         res.evaluations += 1
         res.count("wire-queries")
         res.count("wire-datagrams", len(q["pkts"]))
+        if q.get("split"):
+            na = sum(1 for p in q["pkts"] if p["after"])
+            res.count("wire-change-queries")
+            res.count("wire-datagrams-after-change", na)
+            late = [p for p in q["pkts"] if p["after"] and not (len(p["answers"]) >= 3 and not p["adds"])]
+            res.nontriv(("wire-change", tuple(q["kinds"]), tuple(sorted(x.type for x in q["qs"])), min(q["delay"], 200) // 50, bool(late)))
+            seen_sig = set()
+            for sig, what, detail in change_oracle(q):
+                if sig in seen_sig:
+                    continue
+                seen_sig.add(sig)
+                if sig == SIG_D20:
+                    if res.dist.get("D20-seen", 0) >= 3:
+                        res.count("D20-seen")
+                        continue
+                    res.count("D20-seen")
+                res.violate(sig, what + " (on the wire)", dict(case, step=i, detail=repr(detail)))
+            continue
         union = sorted({nou(rline(a)) for p in q["pkts"] for a in p["answers"]})
         if union:
             res.nontriv(("wire", tuple(sorted((x.type, x.name.lower() == ENUM) for x in q["qs"])), min(len(union), 4), len(q["pkts"])))
@@ -1079,7 +1257,9 @@ def run(ctx):
                 "5 types x 6 labels x 4 hosts x 8 address shapes x boundary TTLs; queries of 1-4 questions x 0-4 known answers at TTL floor(t/2), floor(t/2)+1, ...; "
                 "non-trivial = distinct (question kinds, #answers, #known, #services, answer kinds, dirty) signatures with at least one answer or known answer; "
                 "plus simulated-host histories through the public API observed on the wire")
-    histories = [("corpus/" + name, body["ops"]) for name, body in C.load_corpus("C03")]
+    corpus = C.load_corpus("C03")
+    histories = [("corpus/" + name, body["ops"]) for name, body in corpus if not body.get("wire")]
+    wire_corpus = [(body["ops"], body.get("sim_seed", 0)) for name, body in corpus if body.get("wire")]
     nq = 0
     batch = []
     done = False
@@ -1119,9 +1299,12 @@ def run(ctx):
     # ---- second observation point: datagrams of a simulated host (skipped once a violation is in hand)
     if not res.violations:
         runs = []
-        for w in range(wire_budget):
+        for ops, seed in wire_corpus:
+            steps, errors = exec_wire(ops, seed)
+            runs.append((ops, seed, steps, errors))
+        for w in range(2 * wire_budget):
             wr = C.rng_for(ctx["seed"], "c03-wire", w)
-            ops = gen_wire_history(wr)
+            ops = gen_wire_history(wr) if w % 2 == 0 else gen_change_history(wr)
             seed = ctx["seed"] * 100003 + w
             steps, errors = exec_wire(ops, seed)
             runs.append((ops, seed, steps, errors))
@@ -1139,7 +1322,15 @@ def run(ctx):
     seen = set()
     shrunk = []
     for v in res.violations:
-        if v["sig"] in seen or v["case"].get("wire"):
+        if v["sig"] in seen:
+            shrunk.append(v)
+            continue
+        if v["case"].get("wire"):
+            seen.add(v["sig"])
+            try:
+                v = dict(v, case=shrink_wire(v["case"], v["sig"]))
+            except Exception:  # noqa: BLE001
+                pass
             shrunk.append(v)
             continue
         seen.add(v["sig"])
@@ -1153,15 +1344,43 @@ def run(ctx):
     return res
 
 
+def wire_violations(case):
+    steps, errors = exec_wire(case["ops"], case.get("sim_seed", 0))
+    v = [("C03:wire-exception", e, -1) for e in errors]
+    for i, s in enumerate(steps):
+        if s["q"] is not None and s["q"]["in_scope"]:
+            v += [(sig, what, i) for sig, what, _ in (change_oracle(s["q"]) if s["q"].get("split") else wire_oracle(s["q"]))]
+    return v
+
+
+def shrink_wire(case, sig):
+    ops = list(case["ops"])
+    i = len(ops) - 1
+    while i >= 0:
+        cand = ops[:i] + ops[i + 1:]
+        try:
+            if any(s == sig for s, _, _ in wire_violations(dict(case, ops=cand))):
+                ops = cand
+        except Exception:  # noqa: BLE001
+            pass
+        i -= 1
+    # drop the optional earlier query
+    for j, o in enumerate(ops):
+        if o.get("pre"):
+            cand = ops[:j] + [{k: v for k, v in o.items() if k not in ("pre", "pre_gap")}] + ops[j + 1:]
+            try:
+                if any(s == sig for s, _, _ in wire_violations(dict(case, ops=cand))):
+                    ops = cand
+            except Exception:  # noqa: BLE001
+                pass
+    return {"wire": True, "sim_seed": case.get("sim_seed", 0), "ops": ops, "shrunk_from": len(case["ops"])}
+
+
 def replay(body):
     case = body.get("case", body)
     ops = case["ops"]
     if case.get("wire"):
-        steps, errors = exec_wire(ops, case.get("sim_seed", 0))
-        v = [("C03:wire-exception", e, -1) for e in errors]
-        for i, s in enumerate(steps):
-            if s["q"] is not None and s["q"]["in_scope"]:
-                v += [(sig, what, i) for sig, what, _ in wire_oracle(s["q"])]
+        v = wire_violations(case)
     else:
         v = violations_of(ops)
     return {"violates": bool(v), "violations": [{"sig": s, "what": w, "step": st} for s, w, st in v][:10], "ops": len(ops)}
